@@ -209,7 +209,7 @@ theorem design_side_condition_insufficient :
       nwAlign (sc M) gapOpen r q = .ok ps ∧ IsGlobal a r q ∧ total ps < scoreAff (sc M) gapOpen a :=
   ⟨[[0, -1, -1, -1, -1], [-1, -10, -10, -10, -10], [-1, -10, -10, -10, -10], [-1, -10, -10, -10, -10],
      [-1, -10, -10, -10, -10]], -4, [1, 1], [2, 2],
-    [⟨0, 1, 0, 1, -10⟩, ⟨1, 1, 1, 2, -5⟩, ⟨1, 2, 2, 2, -5⟩], [.u 1, .u 1, .l 2, .l 2],
+    [⟨0, 2, 0, 2, -20⟩], [.u 1, .u 1, .l 2, .l 2],
     by decide, by decide, by decide +kernel, ⟨by decide, by decide⟩, by decide⟩
 
 end Biogo.Properties.C08_aff
